@@ -14,17 +14,62 @@ open TdModel TdModel.Bin
 
 /-! ## Facts regenerated from /repo/proto and /repo/mt -/
 
-/-- Type ids (proto and the generated mt types agree), the 1 MiB message limit on both the encode
-and the decode side, the 10 MiB decompression limit, and the shape of the bomb check
-(`LimitReader(r, max)`, `Total() >= max`). -/
-theorem facts_proto :
+/-- Type ids: proto's and the generated mt twins' agree and are the schema's. -/
+theorem facts_type_ids :
     Facts.C22.messageContainerTypeID = 0x73f1f8dc ∧ Facts.C22.gzipTypeID = 0x3072cfa1 ∧
     Facts.C22.resultTypeID = 0xf35c6d01 ∧
     Facts.C22.mtMsgContainerTypeID = Facts.C22.messageContainerTypeID ∧
     Facts.C22.mtGzipPackedTypeID = Facts.C22.gzipTypeID ∧ Facts.C22.mtRPCResultTypeID = Facts.C22.resultTypeID ∧
-    Facts.C22.messageEncodeMaxBytes = 1024 * 1024 ∧ Facts.C22.messageDecodeMaxBytes = 1024 * 1024 ∧
-    Facts.C22.maxUncompressedSize = 1024 * 1024 * 10 ∧
-    Facts.C22.limitReaderUsesMax = true ∧ Facts.C22.bombCheckIsGE = true := by decide
+    Facts.C22.mtMessageTypeID = 0x5bb8e511 ∧ Facts.C22.preallocateLimit = 1024 := by decide
+
+/-- The size checks, *translated from the Go expressions* (the model calls these definitions):
+`Message.Encode` and `Message.Decode` refuse exactly the lengths outside 0..1024·1024; the
+`io.LimitReader` argument of `GZIP.Decode` is 1024·1024·10 and the bomb check fires exactly from
+that total on.  A refactoring that keeps the meaning (named constant, other spelling) keeps these
+theorems; a changed bound or comparison does not. -/
+theorem facts_limits :
+    (∀ n : Int, Facts.C22.msgLenInvalidEnc n = true ↔ (n < 0 ∨ n > 1024 * 1024)) ∧
+    (∀ n : Int, Facts.C22.msgLenInvalidDec n = true ↔ (n < 0 ∨ n > 1024 * 1024)) ∧
+    Facts.C22.gzipLimitArg = 1024 * 1024 * 10 ∧
+    (∀ n : Int, Facts.C22.gzipBomb n = true ↔ n ≥ 1024 * 1024 * 10) ∧
+    (∀ n : Int, Facts.C22.unencAuthKeyBad n = true ↔ n ≠ 0) ∧
+    (∀ n : Int, Facts.C22.unencLenNegative n = true ↔ n < 0) ∧
+    (∀ n l : Int, Facts.C22.unencLenBeyond n l = true ↔ n > l) ∧
+    (∀ i n : Int, Facts.C22.containerLoopCond i n = true ↔ i < n) := by
+  refine ⟨?_, ?_, by decide, ?_, ?_, ?_, ?_, ?_⟩
+  · intro n; simp [Facts.C22.msgLenInvalidEnc]
+  · intro n; simp [Facts.C22.msgLenInvalidDec]
+  · intro n; simp [Facts.C22.gzipBomb]
+  · intro n; simp [Facts.C22.unencAuthKeyBad]
+  · intro n; simp [Facts.C22.unencLenNegative]
+  · intro n l; simp [Facts.C22.unencLenBeyond]
+  · intro i n; simp [Facts.C22.containerLoopCond]
+
+/-- Write orders regenerated from the AST and *interpreted* by the model (`writeOps`): for every
+input the interpreted encoders are the transliterated ones used in the round-trip theorems.  So the
+order of the fields, their widths (PutInt / PutLong / PutInt32), the type ids written and the
+fields they come from are those of the current source. -/
+theorem encoders_regenerated :
+    (∀ m, encodeMessageG m = encodeMessage m) ∧ (∀ ms, encodeContainerG ms = encodeContainer ms) ∧
+    (∀ x, encodeResultG x = some (encodeResult x)) ∧ (∀ u, encodeUnencryptedG u = some (encodeUnencrypted u)) ∧
+    (∀ c, gzipFrameG c = some (gzipFrame c)) :=
+  ⟨encodeMessageG_eq, encodeContainerG_eq, encodeResultG_eq, encodeUnencryptedG_eq, gzipFrameG_eq⟩
+
+/-- Read order, widths and target fields of `Message.Decode`, regenerated and interpreted
+(`readStores`): equal to the transliterated decoder on every input. -/
+theorem message_decoder_regenerated (b : Bytes) : decodeMessageG b = decodeMessage b := decodeMessageG_eq b
+
+/-- Read orders of the other decoders (method, what the result is stored into), as extracted from
+the AST — these are the sequences the transliterated decoders follow. -/
+theorem facts_read_orders :
+    Facts.C22.opsContainerDecode = [("ConsumeID", "const", "", 0x73f1f8dc), ("Int", "read", "", 0)] ∧
+    Facts.C22.opsResultDecode = [("ConsumeID", "const", "", 0xf35c6d01), ("Long", "store", "RequestMessageID", 0),
+      ("Skip", "expr", "", 0)] ∧
+    Facts.C22.opsUnencryptedDecode = [("Long", "read", "", 0), ("Long", "store", "MessageID", 0), ("Int32", "read", "", 0),
+      ("Len", "read", "", 0), ("ConsumeN", "fields", "MessageData,expr", 0)] ∧
+    Facts.C22.opsGzipDecode = [("ConsumeID", "const", "", 0x3072cfa1), ("Bytes", "read", "", 0)] ∧
+    Facts.C22.opsMessageDecode = [("Long", "store", "ID", 0), ("Int", "store", "SeqNo", 0), ("Int", "store", "Bytes", 0),
+      ("ConsumeN", "fields", "Body,Bytes", 0)] := by decide
 
 /-! ## Round trips -/
 
@@ -55,8 +100,8 @@ theorem message_limit_decode (id seq n : Int) (tail : Bytes)
     (h : n > 1048576 ∨ n < 0) :
     decodeMessage (putInt64 id ++ putInt32 seq ++ putInt32 n ++ tail) = .error errTooBig := by
   rw [decodeMessage_fields id seq n tail hid hseq hn]
-  have : n < 0 ∨ n > 1048576 := by omega
-  simp only [this, if_true]
+  rw [(msgLenInvalidDec_iff n).mpr (by omega)]
+  simp only [if_true]
 
 /-- **result_roundtrip.**  Any request id, any body (aligned or not, any length): decoding the
 encoding gives the same result and consumes the whole buffer. -/
@@ -183,24 +228,29 @@ theorem unencrypted_malformed (ak mid n : Int) (tail : Bytes)
   · intro h
     unfold decodeUnencrypted
     rw [List.append_assoc, List.append_assoc, getInt64_putInt64 ak _ hak]
-    simp only [if_pos h]
+    have : Facts.C22.unencAuthKeyBad ak = true := by simp [Facts.C22.unencAuthKeyBad, h]
+    simp only [this, if_true]
   · intro h
     unfold decodeUnencrypted
     rw [List.append_assoc, List.append_assoc, getInt64_putInt64 0 _ (by omega)]
-    simp only [ne_eq, not_true_eq_false, if_false]
+    have hz : Facts.C22.unencAuthKeyBad 0 = false := by decide
+    simp only [hz, Bool.false_eq_true, if_false]
     rw [getInt64_putInt64 mid _ hmid]
     simp only
     rw [getInt32_putInt32 n _ hn]
-    simp only [h, if_true]
+    have : Facts.C22.unencLenNegative n = true := by simp [Facts.C22.unencLenNegative, h]
+    simp only [this, if_true]
   · intro h
     unfold decodeUnencrypted
     rw [List.append_assoc, List.append_assoc, getInt64_putInt64 0 _ (by omega)]
-    simp only [ne_eq, not_true_eq_false, if_false]
+    have hz : Facts.C22.unencAuthKeyBad 0 = false := by decide
+    simp only [hz, Bool.false_eq_true, if_false]
     rw [getInt64_putInt64 mid _ hmid]
     simp only
     rw [getInt32_putInt32 n _ hn]
-    have h0 : ¬ n < 0 := by omega
-    simp only [h0, if_false, h, if_true]
+    have h0 : Facts.C22.unencLenNegative n = false := by simp [Facts.C22.unencLenNegative]; omega
+    have h1 : Facts.C22.unencLenBeyond n (tail.length : Int) = true := by simp [Facts.C22.unencLenBeyond, h]
+    simp only [h0, Bool.false_eq_true, if_false, h1, if_true]
 
 /-! ## Non-vacuity -/
 
